@@ -48,6 +48,9 @@ THEOREMS = [
     "MCHap.C01.assemblePrior_dosage_perm",
     "MCHap.C01.asmW_perm",
     "MCHap.C01.stationary_of_db",
+    "MCHap.C01.invariant_comp",
+    "MCHap.C01.invariant_sweep",
+    "MCHap.C01.invariant_mix",
 ]
 RULE = ("cases: random instances (ploidy 1..6, 1..5 SNVs with 2..4 alleles, reads with gaps / counts / hard calls, inbreeding in "
         "{0,.01,.25,.5,.9}, inverse temperature in {1,.5,.1}) x current genotype (excess of duplicated haplotypes) x move "
